@@ -168,6 +168,58 @@ func soundLargeXCase(t *engine.T) {
 		v2.check(t, "constructed/x-coordinate-in-[n,p)/other-digest", fmt.Sprintf("x0=n+%d, e+1", i), sig)
 		t.Nontrivial(fmt.Sprintf("largex/%d", i))
 	}
+	// extreme digest x extreme abscissa: here the digest is chosen as well (0, 1, n-1, n, n+1, 2^256-2, 2^256-1) and R has
+	// the largest / smallest abscissa on the curve or one next to n, so that e + x1 needs zero, one or two reductions
+	{
+		one := big.NewInt(1)
+		var Rs []ecref.Point
+		for _, st := range []struct {
+			x0  *big.Int
+			dir int64
+		}{{new(big.Int).Sub(c.P, one), -1}, {big.NewInt(0), 1}, {new(big.Int).Sub(n, one), -1}} {
+			x := new(big.Int).Set(st.x0)
+			for i := 0; i < 4096; i++ {
+				if q, ok := c.LiftX(x, uint(i&1)); ok {
+					Rs = append(Rs, q)
+					break
+				}
+				x.Add(x, big.NewInt(st.dir))
+			}
+		}
+		max256 := new(big.Int).Sub(new(big.Int).Lsh(one, 256), one)
+		made := 0
+		for ri, R := range Rs {
+			for _, e := range []*big.Int{big.NewInt(0), one, new(big.Int).Sub(n, one), n, new(big.Int).Add(n, one), new(big.Int).Sub(max256, one), max256} {
+				for _, tv := range []*big.Int{one, big.NewInt(5)} {
+					r := new(big.Int).Mod(new(big.Int).Add(e, R.X), n)
+					s := new(big.Int).Mod(new(big.Int).Sub(tv, r), n)
+					if r.Sign() == 0 || s.Sign() == 0 {
+						continue
+					}
+					P := c.Mul(new(big.Int).ModInverse(tv, n), c.Add(R, c.Neg(g.Mul(s))))
+					if P.Inf {
+						continue
+					}
+					key := Key{Name: fmt.Sprintf("constructed(R#%d,t=%v)", ri, tv), Pub: P}
+					v := digestCtx(key, e)
+					sig := sigOf(r, s)
+					if a, _, _, _ := v.refAccept(sig); !a {
+						t.Fail("HARNESS/extreme-construction", "the reference rejects the constructed signature R#%d e=%x t=%v", ri, e, tv)
+						continue
+					}
+					made++
+					desc := fmt.Sprintf("x1=%x e=%x t=%v (e+x1 = %v*n + ...)", R.X, e, tv, new(big.Int).Div(new(big.Int).Add(e, R.X), n))
+					v.check(t, "constructed/extreme-e-x1/valid", desc, sig)
+					v.check(t, "constructed/extreme-e-x1/r+1", desc, sigOf(new(big.Int).Add(r, one), s))
+					digestCtx(key, new(big.Int).Xor(e, one)).check(t, "constructed/extreme-e-x1/other-digest", desc, sig)
+				}
+			}
+		}
+		if made < 20 {
+			t.Fail("HARNESS/extreme-vacuous", "only %d signatures constructed", made)
+		}
+		t.Nontrivial(fmt.Sprintf("extreme-e-x1/%d", made))
+	}
 	if found == 0 {
 		t.Fail("HARNESS/largex-no-point", "no curve point with x in [n, n+400)")
 	}
